@@ -39,8 +39,8 @@ func VerifC05Transpose() {
 	for i := range p1 {
 		vf.Assert("every-pitch-shifted-by-the-same-amount", uint8(p2[i])-uint8(p1[i]) == d0)
 	}
-	// the distance between the tonics, up to an octave (no modulo in the query)
+	// the distance between the tonics as notes of the octave of middle C (Cb4 = 59 … B4 = 71)
 	dr := spec.RawPitch(l2, a2) - spec.RawPitch(l1, a1)
-	vf.Assert("shift-is-the-distance-between-the-tonics", vf.Ite(d0 == uint8(dr), true, vf.Ite(d0 == uint8(dr+12), true, d0 == uint8(dr-12))))
+	vf.Assert("shift-is-the-distance-between-the-tonics", d0 == uint8(dr))
 	vf.Reach("end")
 }
